@@ -322,6 +322,8 @@ def live_iteration_problems(ctx, fi):
                             shrinks = True
                         if e[0] == "detach" and isinstance(lp.target, ast.Name) and _path(am.get(e[1])) == lp.target.id:
                             shrinks = True
+                        if e[0] == "detach_id" and isinstance(lp.target, ast.Name) and _path(am.get(e[1])) in (lp.target.id + ".id", lp.target.id + "._id"):
+                            shrinks = True
                         if e[0] == "shrink_any":
                             shrinks = True
         if shrinks:
